@@ -283,7 +283,7 @@ func TestVerif_C21(t *testing.T) {
 
 	const reps = 8
 	encs := []string{"event-json", "event-msgpack", "batch-json", "batch-msgpack"}
-	run.Cases("libhoney", run.N(600, 12000), func(i int, rng *verifkit.Rand) {
+	run.Cases("libhoney", run.N(600, 100000), func(i int, rng *verifkit.Rand) {
 		nTrace := 1
 		if rng.Chance(0.75) {
 			nTrace = rng.Range(2, 4)
@@ -397,7 +397,7 @@ func TestVerif_C21(t *testing.T) {
 	// OTLP: the field set is husky's; attributes named like configured ID fields are
 	// what makes the case interesting.
 	otlpEncs := []string{"otlp-traces-http-proto", "otlp-traces-http-json", "otlp-traces-grpc", "otlp-logs-http", "otlp-logs-grpc"}
-	run.Cases("otlp", run.N(150, 3000), func(i int, rng *verifkit.Rand) {
+	run.Cases("otlp", run.N(150, 20000), func(i int, rng *verifkit.Rand) {
 		nTrace := rng.Range(1, 4)
 		traceNames := c21Subset(rng, c21TracePool, nTrace, nTrace)
 		parentNames := c21Subset(rng, c21ParentPool, 0, 3)
